@@ -7,6 +7,10 @@ from ..engines import labelkind as LK
 
 
 def run(ctx):
+    # language-level slips in the modules the property is anchored in (engine Y)
+    from ..engines import gotchas as GY
+    GY.run(ctx, ('specification', 'specification_extrator', 'rule_db.base', 'rule_db.forest', 'tree_searcher', 'strategies.rule'))
+    ctx.floor("Y", 1)
     ctx.extra["explanation"] = (
         "static analysis (ast, no execution) of specification_extrator.py and specification.py: every node "
         "of the proof tree records its actual rule; every right-hand label without a left-hand side (and "
@@ -72,3 +76,10 @@ def run(ctx):
     from ..engines import varkind as VK
     VK.v6b_kept_child_position(ctx)
     ctx.floor("V6", 2)
+    # with the forest database the productive set is what the table method says it is
+    from ..engines import tablemethod as FT
+    for fn in (FT.f1_recording, FT.f2_initial_shifts, FT.f3_gap_size, FT.f4_registration, FT.f5_firing_test, FT.f6_increase_corrections,
+               FT.f7_infinite_corrections, FT.f8_gap, FT.f9_process_queue, FT.f11_readers):
+        fn(ctx)
+    ctx.floor("F3", 3)
+    ctx.floor("F5", 3)
